@@ -97,6 +97,7 @@ type State struct {
 	factsShared bool
 	tainted map[*Obj]bool
 	pcTag   []string // parallel to pc: "invN" for an assumed loop invariant, "" otherwise
+	prevMapEpoch int // the epoch before the call being made (call-site assertions are evaluated in it)
 	mapEpoch int     // bumped whenever a map may have been mutated: len(m) is stable for a map identity within an epoch
 	curTag  string
 }
